@@ -60,6 +60,9 @@ mut("children-tail-first", TRV, "DoubleEndedIter::new(arena, arena[node].first_c
 mut("ppn-last-from-prev", DPP, "let is_last_sibling = traverser.arena()[id].next_sibling().is_none();", "let is_last_sibling = traverser.arena()[id].previous_sibling().is_none();", ["C14"])
 mut("ibs-leading", DPP, '            (false, true) => "|--",\n            (false, false) => "|",', '            (false, true) => "|-",\n            (false, false) => "|",', ["C14"])
 mut("tree-arena-twice", MAC, "let mut __arena: &mut ::indextree::Arena<_> = #arena;", "let _ = #arena; let mut __arena: &mut ::indextree::Arena<_> = #arena;", ["C15"])
+mut("tree-children-not-reversed", MAC, "        stack.extend(children.into_iter().map(Either::Left).rev());", "        stack.extend(children.into_iter().map(Either::Left));", ["C15"])
+mut("tree-marker-after-children", MAC, "        stack.push(Either::Right(NestingLevelMarker));\n        action_buffer.push(Action::Nest);\n        stack.extend(children.into_iter().map(Either::Left).rev());",
+    "        action_buffer.push(Action::Nest);\n        stack.extend(children.into_iter().map(Either::Left).rev());\n        stack.push(Either::Right(NestingLevelMarker));", ["C15"])
 mut("serde-skip-last-free", ARN, "    last_free_slot: Option<usize>,\n}", "    #[cfg_attr(feature = \"deser\", serde(skip))]\n    last_free_slot: Option<usize>,\n}", ["C16"])
 mut("std-fast-path-count", ARN, "    pub fn count(&self) -> usize {\n        self.nodes.len()", "    pub fn count(&self) -> usize {\n        #[cfg(feature = \"std\")]\n        {\n            if self.nodes.is_empty() {\n                return 0;\n            }\n        }\n        self.nodes.len()", ["C17"])
 mut("par-iter-skip-first", ARN, "        self.nodes.par_iter()", "        self.nodes[1..].par_iter()", ["C17"])
